@@ -1,4 +1,4 @@
-"""./check <ID> [--tier quick|thorough] | dump <regex> | list <regex>"""
+"""./check <ID> [--tier quick|thorough] | explain <replay.json> | dump <regex> | list <regex>"""
 import os, sys, time, json
 from . import extract, mir
 
@@ -26,6 +26,23 @@ def main(argv):
             for b in facts.find(argv[1]):
                 print(b.path, "|", b.kind, "|", len(b.blocks), "blocks |", b.span)
             return 0
+        if cmd == "explain":
+            # ./check explain <replay.json>: print the recorded finding and re-run its property's check on the current tree
+            rec = json.load(open(argv[1]))
+            print("property %s rule %s (%s)" % (rec.get("property"), rec.get("rule"), rec.get("rule_desc")))
+            print("finding  %s" % rec.get("key"))
+            print("site     %s" % rec.get("site"))
+            print("detail   %s" % rec.get("detail"))
+            import io, contextlib
+            from . import runner
+            buf = io.StringIO()
+            with contextlib.redirect_stdout(buf):
+                rc = runner.main([rec["property"]])
+            still = ("FINDING %s " % rec["key"]) in buf.getvalue()
+            print("on the current tree: %s" % ("the finding is still reported" if still else "the finding is no longer reported (check exit code %d)" % rc))
+            if still:
+                print("VIOLATION property=%s replay=%s" % (rec["property"], argv[1]))
+            return 1 if still else 0
         from . import runner
         return runner.main(argv)
     except extract.ToolFailure as ex:
